@@ -3,6 +3,7 @@ package main
 import (
 	"encoding/binary"
 	"fmt"
+	"syscall"
 
 	"github.com/free5gc/go-upf/internal/verif/vh"
 )
@@ -262,15 +263,35 @@ func runC13(res *vh.Result) {
 					op.Action = []uint16{4, 0xc}[rng.Intn(2)] // back to buffering
 				}
 				newPeer, newTEID := 0, uint32(0)
+				// now and then the kernel refuses the update (ADD_FAR with REPLACE fails): the FAR keeps its
+				// action and tunnel, so nothing may be released or discarded - the packets wait for the next switch
+				refuse := rng.Chance(1, 6)
+				oldPeer, oldTEID := fr.peer, fr.teid
+				if refuse {
+					op.Target = "refused-by-the-kernel"
+				}
 				if fr.peer == 0 && op.Action&2 != 0 {
 					// the UE became reachable: the switch to FORW brings the tunnel (Update Forwarding Parameters) with it
 					newPeer, newTEID = rng.Range(1, 2), uint32(0x7000+len(ops))
 					fr.peer, fr.teid = newPeer, newTEID
-					op.Target = "forw-with-new-tunnel"
+					op.Target += " forw-with-new-tunnel"
 				}
 				ops = append(ops, op)
 				wasBuff := fr.action&4 != 0
-				if wasBuff && (op.Action&1 != 0 || op.Action&2 != 0) {
+				if refuse {
+					queued := 0
+					for p := uint16(1); p <= 3; p++ {
+						if pd := s.pdr[p]; pd != nil && pd.far == op.FAR {
+							queued += len(s.q[p])
+						}
+					}
+					if wasBuff && queued > 0 && op.Action&3 != 0 {
+						interesting++
+						res.Count("refused_release_transitions_with_packets", 1)
+					}
+					fs.D.K.SetFailCmd(vh.KCmdAddFAR, syscall.ENOMEM)
+				}
+				if !refuse && wasBuff && (op.Action&1 != 0 || op.Action&2 != 0) {
 					queued := 0
 					for p := uint16(1); p <= 3; p++ {
 						pd := s.pdr[p]
@@ -307,11 +328,19 @@ func runC13(res *vh.Result) {
 					uie.C[0], uie.C[1] = uie.C[1], uie.C[0]
 					ops[len(ops)-1].Target += " apply-action-before-far-id"
 				}
-				if _, err := fs.Request(smf, 0, vh.BuildMsg(vh.MModReq, &s.up, seq, uie), seq, true); err != nil {
-					res.Inconc("request: " + err.Error())
+				_, rerr := fs.Request(smf, 0, vh.BuildMsg(vh.MModReq, &s.up, seq, uie), seq, true)
+				if refuse {
+					fs.Quiesce()
+					fs.D.K.SetFailCmd(vh.KCmdAddFAR, 0)
+					fr.peer, fr.teid = oldPeer, oldTEID
+				}
+				if rerr != nil {
+					res.Inconc("request: " + rerr.Error())
 					return
 				}
-				fr.action = op.Action
+				if !refuse {
+					fr.action = op.Action
+				}
 			case r < 10:
 				op.K = "rmpdr"
 				op.PDR = uint16(rng.Range(1, 3))
